@@ -58,6 +58,11 @@ def gen_c01(rng, tier):
                 ops.append("Q:" + a)
         ops += ["L:2.9:true", "W", "ST", "CB", "E:h"] + ["E:" + a for a in adv]
         mk(cases, "adv", ops, {"adv": adv})
+    # a pairing that was used and then removed is not a pairing any more: its controller is an unpaired peer
+    for _ in range(4 if tier == "quick" else 40):
+        ops = ["N:h", "S:h:c0:ok", "V:h:c0:ok", "R:h:gone:add", "N:g", "V:g:gone:ok", "G:g:2.9", "K:g", "R:h:gone:remove",
+               "N:x", "V:x:gone:ok", "G:x:2.9,4.13", "P:x:2.9:true:1", "Q:x", "ST", "CB"]
+        mk(cases, "removed", ops, {"adv": ["x"]})
     # the same source port reused after close is a new connection: verified state must not carry over
     for _ in range(3 if tier == "quick" else 30):
         ops = ["N:h", "S:h:c0:ok", "V:h:c0:ok", "G:h:2.9", "K:h", "N:x", "X:x:accessories:GET", "Q:x", "ST"]
@@ -83,6 +88,8 @@ def oracle_c01(c, obs):
                 return "plaintext GET /accessories was served on %s" % p[1]
             if p[0] == "E" and tok not in ("E=", "E=noconn"):
                 return "unverified connection %s received events: %s" % (p[1], tok[:80])
+        if p[0] == "V" and c["kind"] == "removed" and p[1] in adv and "err" not in tok and "http" not in tok and "closed" not in tok:
+            return "a controller whose pairing was removed completed pair-verify: %s -> %s" % (op, tok[:80])
         if p[0] == "ST" and tok != "stored=" + b"c0".hex():
             return "the set of stored pairings changed: " + tok
         if p[0] == "CB" and tok not in ("cb=",):
@@ -115,6 +122,15 @@ def gen_c02(rng, tier):
                 ops.append("S:%s:k%d%s:%s" % (c, j, c, rng.choice(msgs)))
             ops.append("ST")
         mk(cases, "setup", ops)
+    # after a RIGHT proof on this connection: every defective key exchange must store nothing (and ends the exchange)
+    for v in ["m5flip", "m5short", "m5empty", "m5zerokey", "m5randkey", "m5wrongsigner", "m5inner", "m5zerosig", "m5nosig", "m5othersig"]:
+        for follow in (["S:a:k:m5"], ["S:a:k:%s" % v], []):
+            mk(cases, "proved-bad5", ["N:a", "S:a:k:start", "S:a:k:m3", "S:a:k:%s" % v, "ST"] + follow + ["ST"])
+    # a transcript recorded from a completed exchange, replayed on another connection (with and without the pairing removed)
+    for tail in (["N:b", "S:b:k0:replayok", "ST"],
+                 ["V:a:k0:ok", "R:a:k0:remove", "ST", "N:b", "S:b:k0:replayok", "ST"],
+                 ["N:b", "S:b:k1:start", "S:b:k1:m3", "N:c", "S:c:k0:replayok", "ST", "S:b:k1:m5", "ST"]):
+        mk(cases, "replay", ["N:a", "S:a:k0:ok", "ST"] + tail)
     # exhaustive short sequences over the adversary alphabet on one connection (no right proof anywhere)
     alpha = [m for m in msgs if m not in ("ok", "m3")]
     import itertools
@@ -132,6 +148,13 @@ def spec_setup(ops):
     st, stored = {}, set()
     for op in ops:
         p = op.split(":")
+        if p[0] == "R" and len(p) > 3:
+            # pairings changed by a verified admin connection (the generator only issues these on verified connections)
+            if p[3] == "remove":
+                stored.discard(p[2])
+            elif p[3] == "add":
+                stored.add(p[2])
+            continue
         if p[0] != "S":
             continue
         c, ctrl, v = p[1], p[2], p[3]
@@ -142,6 +165,7 @@ def spec_setup(ops):
                 "wrongcodezero": ["start", "bad3", "bad5"], "m5zeroempty": ["bad5"], "m5emptyhkdf": ["bad5"],
                 "m5first": ["bad5"], "start": ["start"], "m3": ["m3"], "m3wrong": ["bad3"], "m5": ["m5"], "m5flip": ["bad5"], "m5short": ["bad5"],
                 "m5empty": ["bad5"], "m5zerokey": ["bad5"], "m5randkey": ["bad5"], "m5wrongsigner": ["bad5"], "m5inner": ["inner5"],
+                "m5zerosig": ["bad5"], "m5nosig": ["bad5"], "m5othersig": ["bad5"], "replayok": ["start", "bad3", "bad5"],
                 "badstep": [], "badmethod": [], "garbage": []}[v]
         for m in seqs:
             if m == "start":
@@ -209,6 +233,20 @@ def gen_c03(rng, tier):
             else:
                 ops += ["G:%s:2.9" % c, "Q:" + c]
         mk(cases, "verify", ops)
+    # the finish of an EARLIER exchange after the accessory accepted another start on the same connection (a rejected
+    # start in between, then a small-order all-zero key): the signature covers keys that are not this exchange's
+    for pre in (["V:c:c0:badstartkeep"], ["V:c:c0:startzerokeep"], ["V:c:c0:startzerokeep", "V:c:c0:startzerokeep"], []):
+        for z in ("startzerokeep", "badstartkeep"):
+            ops = ["N:h", "S:h:c0:ok", "N:c", "V:c:c0:startonly"] + pre + ["V:c:c0:%s" % z, "V:c:c0:finish", "G:c:2.9", "Q:c"]
+            mk(cases, "stale-finish", ops)
+    # a pairing that was used (looked up) and then removed must not verify again; keys of the wrong length never verify
+    for _ in range(3 if tier == "quick" else 30):
+        ops = ["N:h", "S:h:c0:ok", "V:h:c0:ok", "R:h:gone:add", "N:g", "V:g:gone:ok", "G:g:2.9", "R:h:gone:remove",
+               "N:x", "V:x:gone:ok", "G:x:2.9", "Q:x", "N:y", "V:y:gone:badsig", "Q:y"]
+        mk(cases, "removed", ops)
+        k = rng.choice(["addshortkey", "addlongkey"])
+        ops = ["N:h", "S:h:c0:ok", "V:h:c0:ok", "R:h:odd:%s" % k, "N:x", "V:x:odd:ok", "G:x:2.9", "Q:x", "N:y", "V:y:odd:badsig", "V:y:c0:ok", "G:y:2.9"]
+        mk(cases, "oddkey", ops)
     for _ in range(10 if tier == "quick" else 150):
         # a controller entity added WITHOUT a public key must never verify anybody; abandoned starts must not wedge a connection
         ops = ["N:h", "S:h:c0:ok", "V:h:c0:ok", "R:h:nokey:addnokey", "N:v"]
@@ -224,15 +262,33 @@ def oracle_c03(c, obs):
         return "harness failure: " + obs[:100]
     pairs, ok = pair_tokens(c["line"], obs)
     genuine = set()
+    stored = {"c0"}
+    own, acc = {}, {}      # per connection: is the accessory's pair-verify key still the one of the controller's recorded exchange?
     for op, tok in pairs:
         p = op.split(":")
-        if p[0] == "V" and p[3] == "ok" and p[2] == "c0" and tok.startswith("V=st2/st4[") and "err" not in tok:
+        if p[0] == "V":
+            accepted = tok.startswith("V=st2")
+            if p[3] in ("startonly",):
+                own[p[1]] = acc[p[1]] = (own.get(p[1], 0) + 1) if accepted else None
+                if not accepted:
+                    own[p[1]] = -1
+            elif p[3] == "startzerokeep" and accepted:
+                acc[p[1]] = -2
+        if p[0] == "R" and tok == "R=st2":
+            if p[3] == "add":
+                stored.add(p[2])
+            elif p[3] == "remove":
+                stored.discard(p[2])
+        honest_ok = p[0] == "V" and p[2] in stored and (p[3] == "ok" or (p[3] == "finish" and own.get(p[1]) is not None and own.get(p[1]) == acc.get(p[1])))
+        if honest_ok and (tok.startswith("V=st2/st4[") or tok.startswith("V=st4[")) and "err" not in tok:
             genuine.add(p[1])
-        if p[0] == "V" and not (p[3] == "ok" and p[2] == "c0"):
+        if p[0] == "V" and not honest_ok:
             # every other outcome is answered with an error
             last = tok[2:].split("[")[0].split("/")[-1]
-            if p[3] != "startonly" and not (last.startswith("http") or "err" in last or last == "closed"):
+            if p[3] not in ("startonly", "startzerokeep") and not (last.startswith("http") or "err" in last or last == "closed"):
                 return "pair-verify %s was not answered with an error: %s" % (op, tok)
+            if p[3] == "finish" and "closed" in last:
+                return "pair-verify %s was answered by dropping the connection: %s" % (op, tok)
         if p[0] == "Q" and p[1] not in genuine and not tok.startswith("Q=refused470"):
             return "connection %s never presented a valid signature but is no longer answered in plaintext / was served: %s" % (p[1], tok)
         if p[0] == "G" and p[1] not in genuine and p[1] != "h" and not (tok.startswith("G=470") or tok.endswith("closed") or tok.endswith("noconn")):
